@@ -274,10 +274,10 @@ func main() {
 		if !o.MustFail {
 			continue
 		}
-		if o.Label == "entry" {
+		if o.Label == "entry" || strings.HasPrefix(o.Label, "loop") {
 			if o.Status == "proved" {
 				vacBad++
-				fmt.Printf("VACUOUS  %s: the preconditions of %s are contradictory\n", o.Name, o.Fn)
+				fmt.Printf("VACUOUS  %s: the assumptions of %s are contradictory at %s\n", o.Name, o.Fn, o.Label)
 			} else {
 				vacOK++
 			}
